@@ -64,7 +64,7 @@ def gen_case(rng):
     if vars_[-1].kind in ("cat", "cat_date") and rng.random() < 0.35:
         col_ins = su.gen_insertions(rng, vars_[-1], rng.randint(1, 2))
     return {"vars": [v.to_json() for v in vars_], "survey": gen.survey_to_json(survey), "weighted": weighted,
-            "row_ins": row_ins, "col_ins": col_ins}
+            "row_ins": row_ins, "col_ins": col_ins, "scale": su.pick_scale(rng, 0.12)}
 
 
 def generate(ctx):
@@ -82,11 +82,14 @@ def lean_ops(case):
     lv = su.lean_vars(vars_)
     ls = gen.survey_lean(vars_, survey)
     rows, cols = _sides(case, vars_)
-    data = [gen.frac_str(x) for x in gen.tabulate(vars_, survey, case["weighted"])]
+    # large samples: the survey replicated K times (raw array and weights times K)
+    kk = case.get("scale", 1)
+    data = [gen.frac_str(x * kk) for x in gen.tabulate(vars_, survey, case["weighted"])]
+    lsk = gen.survey_lean(vars_, su.scaled_survey(survey, kk))
     ops = [{"op": "cubeof", "vars": lv, "survey": ls}]
     for k in range(su.n_partitions(vars_)):
         ops.append({"op": "c16_model", "vars": lv, "data": data, "k": k, "rows": rows, "cols": cols})
-        ops.append({"op": "c16_spec", "vars": lv, "survey": ls, "k": k, "rows": rows, "cols": cols})
+        ops.append({"op": "c16_spec", "vars": lv, "survey": lsk, "k": k, "rows": rows, "cols": cols})
     return ops
 
 
@@ -107,7 +110,9 @@ def evaluate(case, louts, ctx):
     u = [gen.frac_str(x) for x in gen.tabulate(vars_, survey, False)]
     if louts[0]["weighted"] != w or louts[0]["unweighted"] != u:
         raise common.HarnessFault("python tabulator != Lean cubeOf on %r" % case)
-    resp = gen.cube_response(vars_, survey, case["weighted"])
+    resp = su.scale_response(gen.cube_response(vars_, survey, case["weighted"]), case.get("scale", 1))
+    if case.get("scale", 1) > 1:
+        ctx.count("large_sample_cases:%s" % ("weighted" if case["weighted"] else "unweighted"))
     cube = Cube(resp, transforms=su.transforms_of(case["row_ins"], case["col_ins"]))
     nparts = su.n_partitions(vars_)
     parts = common.call_impl(lambda: len(cube.partitions))
@@ -219,3 +224,5 @@ def shrink_candidates(case):
         yield dict(case, col_ins=[])
     if case["weighted"]:
         yield dict(case, survey=[["1", a] for _, a in case["survey"]])
+    if case.get("scale", 1) > 1:
+        yield dict(case, scale=1)
